@@ -5,6 +5,7 @@ import (
 	"os"
 	"path/filepath"
 	"regexp"
+	"runtime"
 	"sort"
 	"strings"
 	"sync"
@@ -145,14 +146,21 @@ func frontEnds(meta *common.Meta, obs []synthObs, versions []string, outDir stri
 	enable := "-enable=" + strings.Join(gs, ",")
 	bin := common.BinDir()
 	type job struct {
-		exe string
-		vs  string
+		exe  string
+		vs   string
+		arch string // "" = host
 	}
 	var jobs []job
+	foreign := "386"
+	if runtime.GOARCH == "386" || runtime.GOARCH == "arm" {
+		foreign = "amd64"
+	}
 	for _, exe := range []string{"go-critic", "gocritic", "go-critic-analysis", "gocritic-analysis"} {
 		for _, vs := range versions {
-			jobs = append(jobs, job{exe, vs})
+			jobs = append(jobs, job{exe, vs, ""})
 		}
+		// the target version must survive loading the packages for another platform
+		jobs = append(jobs, job{exe, versions[0], foreign}, job{exe, "go" + versions[0], foreign})
 	}
 	lineRE := regexp.MustCompile(`(?m)^(?:\./)?(?:[^\s:]*/)?(u\d+)/synth\.go:\d+:\d+: (\w+): (.*)$`)
 	var mu sync.Mutex
@@ -173,7 +181,12 @@ func frontEnds(meta *common.Meta, obs []synthObs, versions []string, outDir stri
 				args = append(args, "-go="+j.vs)
 			}
 			args = append(args, "./...")
-			out, errOut, _, err := common.RunSplit(900*time.Second, dir, common.GoEnv(), filepath.Join(bin, j.exe), args...)
+			env := common.GoEnv()
+			if j.arch != "" {
+				env = append(env, "GOARCH="+j.arch, "CGO_ENABLED=0")
+				args = append([]string{}, args...)
+			}
+			out, errOut, _, err := common.RunSplit(900*time.Second, dir, env, filepath.Join(bin, j.exe), args...)
 			mu.Lock()
 			defer mu.Unlock()
 			if err != nil {
@@ -186,7 +199,10 @@ func frontEnds(meta *common.Meta, obs []synthObs, versions []string, outDir stri
 			}
 			for _, u := range units {
 				for _, o := range u.o {
-					want, known := o.fired[j.vs]
+					want, known := o.fired[strings.TrimPrefix(j.vs, "go")]
+					if _, exact := o.fired[j.vs]; exact {
+						want, known = o.fired[j.vs], true
+					}
 					if !known {
 						continue
 					}
@@ -197,7 +213,7 @@ func frontEnds(meta *common.Meta, obs []synthObs, versions []string, outDir stri
 						}
 					}
 					if fired != want {
-						meta.Fail("C15/"+j.exe+"/go-flag-not-applied", fmt.Sprintf("%s %s: on the input below the rule of checker %s at rules.go:%d (recommending %s) reports = %v, the library at the same version says %v", j.exe, strings.Join(args, " "), o.group, o.line, o.api, fired, want),
+						meta.Fail("C15/"+j.exe+"/go-flag-not-applied", fmt.Sprintf("%s %s: on the input below the rule of checker %s at rules.go:%d (recommending %s) reports = %v, the library at the same version says %v", j.exe, strings.TrimSpace("GOARCH="+j.arch+" ")+" "+strings.Join(args, " "), o.group, o.line, o.api, fired, want),
 							map[string]string{"exe": j.exe, "args": strings.Join(args, " "), "source": o.source, "output": strings.Join(got[u.dir], "\n")})
 					}
 				}
